@@ -24,7 +24,7 @@ func init() {
 			"T3 with both look-aheads pending the selector is applied to (first head, second head) in this order and the first head is emitted iff it returned true; with one pending that one is emitted only after the other source reported exhaustion; (zero,false) is returned only when both are exhausted; " +
 			"T4 HasNext is idempotent (no further environment call) and agrees with the following Next; " +
 			"T6 the package's iterator constructors return the same reset capability on every path; " +
-			"T5 a successful Reset restores exactly the state Init establishes (every field iteration writes), and fails with an error otherwise.",
+			"T5 a successful Reset restores exactly the state Init establishes (every field iteration writes), and fails with an error otherwise. T7: the same merge-step clauses T1-T4 hold from every state reached through a Reset that returned an error (sources that were not reset keep position and look-ahead, sources that were reset restart).",
 		NotDecided: "the merged sequence as a value (induction over the inputs); behaviour of ill-behaved sources whose HasNext is not monotone.",
 	})
 }
@@ -65,7 +65,14 @@ func runC18(c *Ctx) {
 		return hasNext
 	}
 	report := map[string]bool{}
+	afterRefusedReset := false // the state being explored has a refused Reset in its history
 	fail := func(rule, what, detail string) {
+		if afterRefusedReset {
+			// the same clauses, but only reachable through a Reset that returned an error: its own obligation
+			what = "after a refused Reset: " + what
+			detail = "reachable only after a Reset that returned an error (a source cannot be reset): " + detail
+			rule = "C18.T7"
+		}
 		k := rule + "|" + what
 		if !report[k] {
 			report[k] = true
@@ -154,6 +161,7 @@ func runC18(c *Ctx) {
 					return ai.Tok{Name: "reset-error"}
 				}
 				mm.pend[k], mm.done[k], mm.has[k] = false, false, false
+				mm.dec = 0
 				st.Mem[fmt.Sprintf("model.reset%d", k)] = ai.Bool(true)
 				return ai.Const{}
 			}
@@ -232,6 +240,10 @@ func runC18(c *Ctx) {
 	for len(work) > 0 {
 		s := work[0]
 		work = work[1:]
+		afterRefusedReset = false
+		if b, ok := ai.AsBool(s.Mem["model.refused"]); ok && b {
+			afterRefusedReset = true
+		}
 		// --- HasNext
 		curOp = "HasNext"
 		hOuts, err := ai.Explore(env, hasNext, []ai.Val{recv}, fresh(s))
@@ -365,7 +377,20 @@ func runC18(c *Ctx) {
 				if got := implKey(o.State); got != initImpl {
 					fail("C18.T5", "successful Reset restores the Init state", "after a successful Reset the mixer differs from a freshly initialised one: "+diffKeys(initImpl, got))
 				}
+				ns := fresh(o.State)
+				delete(ns.Mem, "model.reset0")
+				delete(ns.Mem, "model.reset1")
+				push(ns)
+				continue
 			}
+			// T7: a Reset that returned an error (a source without Reset support, or one whose Reset failed) leaves a
+			// mixer that goes on merging: sources that were not reset keep their position and their look-ahead,
+			// sources that were reset restart; the merge-step clauses T1-T4 are required from that state on as well
+			ns := fresh(o.State)
+			delete(ns.Mem, "model.reset0")
+			delete(ns.Mem, "model.reset1")
+			ns.Mem["model.refused"] = ai.Bool(true)
+			push(ns)
 		}
 	}
 	c.R.Role("typestate exploration", fmt.Sprintf("%d reachable (implementation x look-ahead automaton) states, %d abstract transitions", len(seen), nTrans))
@@ -385,13 +410,25 @@ func runC18(c *Ctx) {
 		{"C18.T3", "selector consulted when both heads are pending"},
 		{"C18.T4", "HasNext is idempotent"}, {"C18.T4", "HasNext agrees with the following Next"}, {"C18.T4", "HasNext true implies an element is available"},
 		{"C18.T5", "successful Reset restores the Init state"}, {"C18.T5", "Reset succeeds only when both inputs were reset"},
+		{"C18.T7", "after a refused Reset the merge step clauses T1-T4 still hold"},
 	} {
+		if ob[0] == "C18.T7" {
+			any := false
+			for k := range report {
+				if strings.HasPrefix(k, "C18.T7|") {
+					any = true
+				}
+			}
+			if any {
+				continue
+			}
+		}
 		if !report[ob[0]+"|"+ob[1]] {
 			fn := hasNext
 			switch ob[0] {
 			case "C18.T2":
 				fn = next
-			case "C18.T5":
+			case "C18.T5", "C18.T7":
 				fn = reset
 			}
 			c.Decide(ob[0], fn, ob[1], nil, true, "")
